@@ -1,6 +1,6 @@
 (* Lock skeletons generated from the source (gen/Generated.v: [lev], paths with
    [Call m]) and their expansion to programs of the lock machine.
-   Executable definitions only; proofs are in RLockProofs.v.
+   Executable definitions only; proofs are in SkeletonProofs.v.
 
    A skeleton is the list of control-flow paths of one snapshot operation.
    [Call m] = the operation re-enters a snapshot operation with method id m on
@@ -31,6 +31,20 @@ Fixpoint brkC (d : nat) (p : list lev) : bool :=
 
 Definition table_bracketed (tbl : table) : bool :=
   forallb (fun e => forallb (brkC 0) (snd e)) tbl.
+
+(* outermost sections at Call level: an Acq at depth 0 opens one, a Call at depth 0
+   contributes the (at most one, if the table is [table_onesec]) section of its callee *)
+Fixpoint nsecC (d : nat) (p : list lev) : nat :=
+  match p with
+  | [] => 0
+  | Acq :: r => (match d with 0 => 1 | S _ => 0 end) + nsecC (S d) r
+  | Rel :: r => nsecC (pred d) r
+  | Read :: r => nsecC d r
+  | Call _ :: r => (match d with 0 => 1 | S _ => 0 end) + nsecC d r
+  end.
+
+Definition table_onesec (tbl : table) : bool :=
+  forallb (fun e => forallb (fun p => nsecC 0 p <=? 1) (snd e)) tbl.
 
 Inductive exp (tbl : table) : list lev -> prog -> Prop :=
 | exp_nil : exp tbl [] []
